@@ -4900,7 +4900,7 @@ def process_stale_scc(graph: Graph, ascc: SCC, manager: BuildManager) -> None:
 
 def process_stale_scc_interface(
     graph: Graph, ascc: SCC, manager: BuildManager, from_cache: set[str]
-) -> list[tuple[str, ModuleResult, str]]:
+) -> list[tuple[str, ModuleResult, str | None]]:
     """Process the modules' interfaces in one SCC from source code."""
     # First verify if all transitive dependencies are loaded in the current process.
     t0 = time.time()
@@ -4935,7 +4935,7 @@ def process_stale_scc_interface(
                 unfinished_modules.discard(id)
 
     t4 = time.time()
-    scc_result = []
+    scc_result: list[tuple[str, ModuleResult, str | None]] = []
     meta_tuples = {}
     for id in stale:
         meta_tuple = graph[id].write_cache()
@@ -4946,6 +4946,10 @@ def process_stale_scc_interface(
     for id in stale:
         meta_tuple = meta_tuples[id]
         if meta_tuple is None:
+            # The cache was not written (e.g. for mypy -c '<some code>', or because of
+            # a write error), but we still need to process the implementation, otherwise
+            # errors in function bodies are never reported.
+            scc_result.append((id, ModuleResult(graph[id].interface_hash.hex(), []), None))
             continue
         meta, meta_file = meta_tuple
         state = graph[id]
@@ -4970,7 +4974,7 @@ def process_stale_scc_interface(
 
 
 def process_stale_scc_implementation(
-    graph: Graph, stale: list[str], manager: BuildManager, meta_files: list[str]
+    graph: Graph, stale: list[str], manager: BuildManager, meta_files: list[str | None]
 ) -> dict[str, ModuleResult]:
     """Process implementations (top-level function/method bodies) in an SCC."""
     t0 = time.time()
@@ -5030,13 +5034,13 @@ def process_stale_scc_implementation(
                 graph[id].xpath, errors, formatter=manager.error_formatter
             )
             meta_ex.error_lines = errors
-            write_cache_meta_ex(meta_file, meta_ex, manager)
             scc_result[id] = ModuleResult(None, formatted)
-        else:
-            # If there are no errors, only write the cache, don't send anything back
-            # to the caller (as a micro-optimization).
+        # Note: if there are no errors, we only write the cache, and don't send anything
+        # back to the caller (as a micro-optimization).
+        if meta_file is not None:
+            # The meta file may be missing if the interface cache was not written.
             write_cache_meta_ex(meta_file, meta_ex, manager)
-        manager.commit_module(meta_file)
+            manager.commit_module(meta_file)
 
     manager.add_stats(type_check_time_implementation=time.time() - t0)
     return scc_result
